@@ -40,6 +40,7 @@ func init() {
 			{"LAY-FUNC", 8, ruleLayFunc},
 			{"FRM-METHOD", 3, ruleFrmMethod},
 			{"FRM-REDEFINE", 3, ruleFrmRedefine},
+			{"FRM-PARAMSLOT", 1, ruleFrmParamSlot},
 			{"REP-TYPEDSTORE", 9, ruleRepTypedStore},
 			{"JOINSPLIT", 100, ruleJoinSplit},
 		},
